@@ -12,6 +12,41 @@ import (
 func init() {
 	modes["crash-family"] = crashFamily
 	modes["crash-fuzz"] = crashFuzz
+	modes["crash-binary"] = crashBinary
+}
+
+// crashBinary: every command / flag shape on the REAL binary (its own CmdUtils: real files, real stdout), on the
+// fixed inputs and a few mutated ones: the exit status must be 0 or 1, never a panic or a signal
+func crashBinary(e *env) error {
+	dir := os.Getenv("VERIF_SCRATCH") + "/crashbin"
+	os.MkdirAll(dir, 0o755)
+	n := e.argInt("inputs", 6)
+	shapes := append(append([][]string{}, crashShapes...), []string{"gen", "man"}, []string{"gen", "markdown"}, []string{"stats"}, []string{"--help"}, []string{"report"}, []string{"csv"})
+	for i := 0; i < n; i++ {
+		book, log := fixedBook, fixedLog
+		switch i % 3 {
+		case 1:
+			log = mutate(e, log)
+		case 2:
+			book = mutate(e, book)
+		}
+		writeFile(dir+"/food.yaml", book)
+		writeFile(dir+"/log.yaml", log)
+		for _, args := range shapes {
+			r := runBinary(dir, nil, nil, args...)
+			e.sum.Runs++
+			rec := map[string]interface{}{"args": args, "book": trunc(book), "log": trunc(log)}
+			switch {
+			case r.TimedOut:
+				e.mismatch("cli-hang", "cmd/hranoprovod-cli", fmt.Sprintf("binary %v does not exit within 20 s", args), rec)
+			case r.Exit != 0 && r.Exit != 1, strings.Contains(r.Stderr, "panic:"), strings.Contains(r.Stderr, "fatal error:"):
+				e.mismatch("cli-panic", "cmd/hranoprovod-cli", fmt.Sprintf("binary %v exits %d: %s", args, r.Exit, firstLine(r.Stderr)), rec)
+			}
+		}
+		e.sum.Cases++
+		e.sum.Nontrivial++
+	}
+	return nil
 }
 
 // every command and flag shape the crash checks drive (C08)
@@ -67,7 +102,7 @@ func flushShapes(e *env) int {
 		next <- i
 	}
 	close(next)
-	for w := 0; w < 12; w++ {
+	for w := 0; w < nWorkers(); w++ {
 		wg.Add(1)
 		go func() {
 			defer wg.Done()
